@@ -2,6 +2,7 @@ import GixModel.Lemmas.C26
 import GixModel.Lemmas.C26Append
 import GixModel.Lemmas.C26Append2
 import GixModel.Lemmas.C26Append3
+import GixModel.Lemmas.C26Append4
 /-
 C26 — Config files round-trip losslessly.  PROPERTY THEOREMS ONLY.
 
@@ -112,8 +113,9 @@ example : ∃ f, fileFromBytes [91, 97, 93, 10, 9, 107, 32, 61, 32, 118, 10, 35,
     ∧ f.normal = true ∧ f.sections.length = 2 := by
   refine ⟨_, rfl, by decide +kernel, by decide +kernel, by decide +kernel⟩
 
-/-- Print-then-parse, proved part (round 3). A loaded file whose events are lossless (`hl`), whose
-text has no byte that can start a byte-order mark at its head and does not end in a lone CR, and for
+/-- Print-then-parse, proved part (rounds 3, 4). A loaded file whose events are lossless (`hl`)
+(that the text has no byte-order mark, and that no lone CR is left over at its end, are DERIVED from
+losslessness and parse success: `bomLen_of_lossless`, `noBomHead_of_parse`, `Lemmas/C26Append4.lean`), and for
 which `File::write_to` inserts nothing, or exactly the missing FINAL newline (`\n` or `\r\n`,
 whichever the file uses: `detectNewline`) after events that END IN A VALUE, IN WHITESPACE OR IN A
 SECTION HEADER: the written text parses, and parses back to the same section headers and the same
@@ -124,7 +126,7 @@ is inserted, which is the first disjunct. Files for which the writer also insert
 middle (a key on the header line, `[a][b]`, several value-less keys on one line) are not covered;
 see `file_reparse_full`. -/
 theorem file_reparse_uniform_newlines (bs : Bytes) (f : File) (h : fileFromBytes bs = some f)
-    (hl : render f.events = bs) (hbom : noBomHead bs = true) (hcr : bs.getLast? ≠ some 13)
+    (hl : render f.events = bs)
     (hfin : f.normal = true ∨
       (f.aug = f.events ++ [.newline (detectNewline f)] ∧
         ∃ e, f.events.getLast? = some e ∧ (isValueEnd e = true ∨ evIsWs e = true ∨ isHeaderEv e = true ∨
@@ -140,16 +142,22 @@ theorem file_reparse_uniform_newlines (bs : Bytes) (f : File) (h : fileFromBytes
       rw [this] at ha
       have := congrArg List.length ha
       simp at this
+    have hnb : noBomHead bs = true := by
+      have h0 := h
+      unfold fileFromBytes parseEvents at h
+      simp only [Option.map_eq_some_iff] at h
+      obtain ⟨_, ⟨revs, hr, _⟩, _⟩ := h
+      exact noBomHead_of_parse hr (bomLen_of_lossless h0 hl)
     have hfile : fileFromBytes (bs ++ detectNewline f) = some (fileOfEvents (f.events ++ [.newline (detectNewline f)])) := by
       by_cases hnl : detectNewline f = [10]
       · rw [hnl]
-        refine fileFromBytes_app_eqG (Or.inl rfl) eofOk_lf isGoodEndLf_toReal h hbom hcr hsec ⟨e, hle, ?_⟩
+        refine fileFromBytes_app_eqH (Or.inl rfl) eofOk_lf isGoodEndLf_toReal h hnb hsec ⟨e, hle, ?_⟩
         rcases hv with hv | hv | hv | hv
         · exact Or.inl (by simp [isGoodEndLf, isGoodEnd, hv])
         · exact Or.inl (by simp [isGoodEndLf, isGoodEnd, hv])
         · exact Or.inr hv
         · exact Or.inl (by simp [isGoodEndLf, hv.1])
-      · refine fileFromBytes_app_eq2 (detectNewline_NL f) h hbom hcr hsec ⟨e, hle, ?_⟩
+      · refine fileFromBytes_app_eqH (detectNewline_NL f) (eofOk_goodEnd (detectNewline_NL f)) isGoodEnd_toReal h hnb hsec ⟨e, hle, ?_⟩
         rcases hv with hv | hv | hv | hv
         · exact Or.inl (by simp [isGoodEnd, hv])
         · exact Or.inl (by simp [isGoodEnd, hv])
